@@ -18,6 +18,13 @@ ASSUMPTIONS = []
 
 def run(ctx):
     s = S(ctx)
+    header_coverage(ctx, s)
+    rest(ctx, s)
+
+
+def header_coverage(ctx, s):
+    """every byte of the fixed headers is written on every success path of every constructor; accessors read the ranges the
+    constructors write (shared with C19: a header byte left as the caller's buffer had it is a malformed value)"""
     # ---------------------------------------------------------------- Event
     fp = ctx.fn("pocket_types::Event::from_parts")
     pj = ctx.fn(parsers.EVENT_PARSER)
@@ -77,6 +84,10 @@ def run(ctx):
     w = layout.const_writes(ctx, s, rta, ("param", 3))
     miss, n = layout.covered(ctx, s, rta, w, 4)
     report(ctx, s, rta, "tags-header", 4, miss, n)
+    ctx.functions.update({fp.path, pj.path, ffp.path, fpj.path, tfp.path, rta.path})
+
+
+def rest(ctx, s):
     # ---------------------------------------------------------------- derived byte-wise equality
     for ty in ("Event", "Tags", "Filter"):
         need = {"PartialEq", "Eq", "Hash"}
@@ -114,7 +125,7 @@ def run(ctx):
     escaping.unescape_writes(ctx, s)
     escaping.writer_escapes(ctx, s, "pocket_types::Event::as_json")
     escaping.writer_escapes(ctx, s, "pocket_types::Tags::as_json")
-    ctx.functions.update({fp.path, pj.path, ffp.path, fpj.path, tfp.path, rta.path, aj.path})
+    ctx.functions.add(aj.path)
 
 
 def report(ctx, s, fn, what, header, missing, n_ok):
